@@ -269,9 +269,20 @@ theorem SysSnd.step_length (fuel : Nat) (s : SysSnd α) (out : List (Frame α)) 
 
 /-- **The real components are length preserving**: the hypothesis every C02 / C11 / C12 theorem makes about
     the abstract components holds for static sounds and the eight built-in effects (any nesting depth). -/
-theorem sysComps_lenPres (fuel n : Nat) : (sysComps fuel n : Comps α (SysSnd α) (SysFx α n) Unit).LenPres :=
+theorem SpatialData.chunkOut_length (sd : SpatialData α) (li : Option (ListenerInfo α)) (n i : Nat)
+    (buf : List (Frame α)) : (sd.chunkOut li n i buf).length = buf.length := by
+  induction buf generalizing i with
+  | nil => rfl
+  | cons f fs ih => simp [SpatialData.chunkOut, ih]
+
+/-- the spatialisation loop writes every frame of the slice it is given, no more, no fewer -/
+theorem SysSpatial.step_length (p : SysSpatial α) (buf : List (Frame α)) (dtn : α) (info : Info α) :
+    (p.step buf dtn info).2.length = buf.length := by
+  simp [SysSpatial.step, SpatialData.chunkOut_length]
+
+theorem sysComps_lenPres (fuel n : Nat) : (sysComps fuel n : Comps α (SysSnd α) (SysFx α n) (SysSpatial α)).LenPres :=
   ⟨fun s buf dt info => SysSnd.step_length fuel s buf dt info,
    fun e buf dt info => SysFx.step_length e buf dt info,
-   fun _ _ _ _ => rfl⟩
+   fun p buf dt info => SysSpatial.step_length p buf dt info⟩
 
 end K
